@@ -28,6 +28,9 @@ def pkind(p):
     grp = {"shadow": "shadow", "string": "string", "vector": "vector", "struct": "struct"}.get(base, sg)
     if tn == "char":
         grp = "char"
+    # an integer-like typemap with a C++ cast as its c_to_cxx conversion is an enumeration (typemap.create_enum_typemap)
+    if grp == "native" and tm is not None and (tm.c_to_cxx or "").startswith("static_cast<"):
+        grp = "enum"
     name = (p.get("attrs") or {}).get("name") or (p.get("declarator") or {}).get("name") or ""
     fptr = bool((p.get("declarator") or {}).get("func"))
     return [name, "%s|%s|%s|%s%s" % (grp, ptrs, intent, "const" if p.get("const") else "", "|fptr" if fptr else "")]
@@ -67,6 +70,7 @@ for k, item in enumerate(job):
                         nm = (a.get("declarator") or {}).get("name") or cls or ""
                         nodes.append({"cname": o["fmtdict"].get("C_name"), "cxx_name": nm if kind != "ctor" else cls, "kind": kind,
                                       "params": [pkind(p) for p in (a.get("params") or [])], "generated": o.get("_generated"),
+                                      "splicer": bool(o.get("splicer")), "user_pattern": bool(o.get("C_error_pattern") or o.get("fstatements")),
                                       "result": pkind(a)[1]})
                     return
                 c2 = o.get("name") if ("functions" in o and "parse_keyword" in o) or o.get("cxx_class") else cls
